@@ -218,6 +218,14 @@ Theorem C17_token_instant_refines :
 Proof. exact auth_do_tok_instant. Qed.
 Print Assumptions C17_token_instant_refines.
 
+(* the two rewind decisions as translated from auth.rewindRequestBody and from the rewind block
+   of Transport.RoundTrip (Generated.GC17.generated_auth_rewind / generated_rt_rewind), by body
+   kind: they differ exactly on http.NoBody without GetBody *)
+Theorem C17_rewind_closed_form :
+  forall bd st, rewind bd st = rewind_closed bd st /\ rt_rewind bd st = rt_rewind_closed bd st.
+Proof. exact (fun bd st => conj (rewind_eq bd st) (rt_rewind_eq bd st)). Qed.
+Print Assumptions C17_rewind_closed_form.
+
 (* a body that cannot be replayed (no GetBody, or GetBody failing) is sent once; the
    transport ends with that answer (or the policy's panic) *)
 Theorem C17_not_replayable_once :
